@@ -121,6 +121,8 @@ class Explorer:
                                         'fpy2.analysis.format_infer', 'fpy2.number.engine'])
         # stand-in classes for external objects (Python ast nodes) live in spec modules; searched last
         self.types.default_modules += [m for m in ('spec.c06', 'spec.c07') if index.module(m) is not None]
+        # searched last: private classes of the format analysis (`_FormatInferInstance`) and the stand-in `DefUseM` of spec/c14x_refine.py as Lemma parameter types
+        self.types.default_modules += [m for m in ('fpy2.analysis.format_infer.analysis', 'spec.c14x_refine') if index.module(m) is not None]
         self.intrinsics = Intrinsics(self)
         self.global_cache = {}
         self.tags = Tags()
